@@ -23,7 +23,7 @@ import json
 import random
 from typing import Any
 
-from harness.common import Ctx, MachineryError, cleanup_tlc, parse_tlc_values, run_tlc, tla, tlc_must_pass
+from harness.common import VERIF, Ctx, MachineryError, cleanup_tlc, parse_tlc_values, run_tlc, tla, tlc_must_pass
 from harness.pool import run_tasks
 
 LEVEL = "model_checking"
@@ -249,7 +249,15 @@ def run(ctx: Ctx) -> None:
         rng.shuffle(comp_list)
         # every substitute whose signature is explicit is always executed; forwarding ones are sampled
         explicit = {s["components"][0] for s in usable if not any(p["k"] == "vp" for p in s["sub"])}
-        comp_list = sorted(set(comp_list[: max(40, len(comp_list) // 3)]) | explicit)
+        # substitutes whose source file differs from the recorded baseline (harness/plugin_hashes.json, written
+        # by tools/plugin_hashes.py for the registered tree) are always executed
+        try:
+            base_h = json.loads((VERIF / "harness" / "plugin_hashes.json").read_text())
+        except Exception:  # noqa: BLE001
+            base_h = {}
+        changed = {s["components"][0] for s in usable if s.get("src", {}).get("file") and base_h.get(s["src"]["file"]) not in (None, s["src"]["hash"])}
+        ctx.extra["substitutes_changed_since_baseline"] = sorted(changed)[:40]
+        comp_list = sorted(set(comp_list[: max(40, len(comp_list) // 3)]) | explicit | changed)
     chunks = [comp_list[i::28] for i in range(28)]
     tasks = [{"fn": "harness.formjobs:bindcheck_job", "args": {"forms": chk}, "timeout": 900}]
     for ch in chunks:
